@@ -65,10 +65,14 @@ FAMILY = [
     ("ManualDoc", list(b"TEST_CONST"), [KEY, U64], True),
     ("BlanketKey", None, [KEY], True),
     ("BlanketU64", None, [U64], True),
+    # field names with leading underscores / raw identifiers (the derive must not read anything into a name)
+    ("Und", None, [KEY, U8], True),
+    ("UndC", list(b"und"), [U16, U8, U32], True),
+    ("RawId", None, [U8, U16], True),
 ]
 
 RULE = ("%d seed structs (derived GetSeeds with 0..16 fields of Pubkey / u8 / u16 / u32 / u64 / u128 / i16 / i64 / [u8;N], "
-        "with and without a constant prefix given as literal or path; the blanket impl; two hand-written impls, one "
+        "with and without a constant prefix given as literal or path, field names with leading underscores and raw identifiers; the blanket impl; two hand-written impls, one "
         "without the trailing empty seed) x random and boundary field values x program ids (runtime id through "
         "CurrentProgram, or a fixed StarFrameProgram) x candidate keys {canonical PDA by Seeds and by SeedsWithBump, a lower "
         "valid bump, a wrong bump, PDA of permuted seeds, PDA of a one-bit-perturbed field, PDA under another program, an "
